@@ -548,6 +548,20 @@ pub fn net_oracles_learn(ctx: &mut Ctx, spec: &NetSpec, net: &Network, job: &Lea
             ctx.oracle(close_vecs(tl, &spec_loss), "train-loss-not-mean-of-means", "the epoch's training loss must be the mean over its groups of the mean per-sample loss",
                 desc.clone(), format!("{:?}", tl), format!("{:?}", spec_loss));
         }
+        // the same walk with every step taken by the documented rule, independently of the library's optimizer
+        // code (each parameter tensor — each filter — with its own state)
+        if let Some((ind_params, well)) = learn_spec_independent(spec, job) {
+            let got = net_params(net);
+            let finite = ind_params.iter().all(|t| t.iter().all(|x| x.is_finite())) && got.iter().all(|t| t.iter().all(|x| x.is_finite()));
+            if well && finite {
+                let close = |a: &[f32], b: &[f32]| a.len() == b.len() && a.iter().zip(b.iter()).all(|(x, y)|
+                    ((*x as f64) - (*y as f64)).abs() <= 2e-4 * (x.abs().max(y.abs()).max(1e-2) as f64));
+                let same = got.len() == ind_params.len() && got.iter().zip(ind_params.iter()).all(|(a, b)| close(a, b));
+                ctx.oracle(same, "group-step-not-one-optimizer-step",
+                    "each group must be followed by exactly one optimizer step (step number = epoch) on every parameter tensor, applied to the sum of the group's per-sample gradients",
+                    desc.clone(), "final weights differ from the documented update rule applied per parameter tensor to the group sums".into(), "equal weights (up to rounding)".into());
+            }
+        }
     }
     let _ = (tl, va);
 }
@@ -597,6 +611,96 @@ pub fn learn_spec(spec: &NetSpec, job: &LearnJob) -> Option<(Vec<f32>, Vec<Vec<f
     Some((r, net_params(&twin)))
 }
 
+/// the parameters of a top-level layer as flat lists: one per weight matrix / filter, then the bias
+fn set_layer_flat(l: &mut Layer, vals: &[Vec<f32>]) {
+    fn refill(t: &Tensor, v: &[f32]) -> Tensor {
+        let mut out = t.clone();
+        let mut it = v.iter();
+        match &mut out.data {
+            Data::Single(a) => for x in a.iter_mut() { *x = *it.next().unwrap(); },
+            Data::Double(a) => for r in a.iter_mut() { for x in r.iter_mut() { *x = *it.next().unwrap(); } },
+            Data::Triple(a) => for m in a.iter_mut() { for r in m.iter_mut() { for x in r.iter_mut() { *x = *it.next().unwrap(); } } },
+            _ => panic!("parameter rank"),
+        }
+        out
+    }
+    match l {
+        Layer::Dense(d) => {
+            let w = refill(d.verif_weights(), &vals[0]);
+            d.verif_set_weights(w);
+            if let Some(b) = d.verif_bias().clone() { d.verif_set_bias(Some(refill(&b, &vals[1]))); }
+        }
+        Layer::Convolution(d) => { let ks: Vec<Tensor> = d.verif_kernels().iter().zip(vals.iter()).map(|(k, v)| refill(k, v)).collect(); d.verif_set_kernels(ks); }
+        Layer::Deconvolution(d) => { let ks: Vec<Tensor> = d.verif_kernels().iter().zip(vals.iter()).map(|(k, v)| refill(k, v)).collect(); d.verif_set_kernels(ks); }
+        _ => {}
+    }
+}
+
+/// C04, independent of the library's optimizer code: the same walk as `learn_spec`, but every step is the
+/// documented update rule applied in double precision to each scalar parameter with its own state.
+/// Networks without feedback blocks (a block has its own optimizer and coupling).  Returns the final
+/// parameters and whether every step stayed well-conditioned.
+pub fn learn_spec_independent(spec: &NetSpec, job: &LearnJob) -> Option<(Vec<Vec<f32>>, bool)> {
+    let opt = spec.opt.as_ref()?;
+    if spec.builds.iter().any(|b| matches!(b, Build::Feedback { .. })) { return None; }
+    let mut twin = net::build(spec).ok()?;
+    net::set_all_training(&mut twin, true);
+    net::try_run(|| {
+        let nl = twin.layers.len();
+        // per layer, per parameter tensor, per scalar: value and optimizer state in f64
+        let mut w: Vec<Vec<Vec<f64>>> = twin.layers.iter().map(|l| layer_params(l).into_iter().map(|v| v.into_iter().map(|x| x as f64).collect()).collect()).collect();
+        let mut st: Vec<Vec<Vec<[f64; 3]>>> = w.iter().map(|l| l.iter().map(|t| vec![[0.0; 3]; t.len()]).collect()).collect();
+        let mut well = true;
+        for epoch in 1..=job.epochs {
+            let mut i = 0;
+            while i < job.xs.len() {
+                let end = (i + job.batch).min(job.xs.len()).min(job.ts.len().max(i));
+                if end <= i { break; }
+                let mut sum_w: Vec<Tensor> = Vec::new();
+                let mut sum_b: Vec<Option<Tensor>> = Vec::new();
+                for s in i..end {
+                    let (pre, act, maxp, fbs) = twin.forward(&job.xs[s]);
+                    let (_, grad) = twin.verif_objective(act.last().unwrap(), &job.ts[s]);
+                    let (wg, bg) = twin.verif_backward(grad, &pre, &act, &maxp, fbs);
+                    if sum_w.is_empty() {
+                        sum_w = wg;
+                        sum_b = bg;
+                    } else {
+                        for (a, b) in sum_w.iter_mut().zip(wg.iter()) { a.add_inplace(b); }
+                        for (a, b) in sum_b.iter_mut().zip(bg.iter()) {
+                            if let (Some(a), Some(b)) = (a.as_mut(), b.as_ref()) { a.add_inplace(b); }
+                        }
+                    }
+                }
+                for li in 0..nl {
+                    let gi = nl - 1 - li;
+                    let (is_dense, has_bias) = match &twin.layers[li] { Layer::Dense(d) => (true, d.verif_bias().is_some()), _ => (false, false) };
+                    if w[li].is_empty() { continue; }
+                    let gflat: Vec<f32> = flat_any(&sum_w[gi]);
+                    let ntens = if is_dense { 1 } else { w[li].len() };
+                    let mut off = 0;
+                    for ti in 0..ntens {
+                        for k in 0..w[li][ti].len() {
+                            well &= opt.step_f64(&mut w[li][ti][k], &mut st[li][ti][k], epoch, gflat[off + k] as f64);
+                        }
+                        off += w[li][ti].len();
+                    }
+                    if is_dense && has_bias {
+                        let bflat: Vec<f32> = flat_any(sum_b[gi].as_ref().unwrap());
+                        for k in 0..w[li][1].len() {
+                            well &= opt.step_f64(&mut w[li][1][k], &mut st[li][1][k], epoch, bflat[k] as f64);
+                        }
+                    }
+                    let vals: Vec<Vec<f32>> = w[li].iter().map(|t| t.iter().map(|x| *x as f32).collect()).collect();
+                    set_layer_flat(&mut twin.layers[li], &vals);
+                }
+                i = end;
+            }
+        }
+        (net_params(&twin), well)
+    }).ok()
+}
+
 /* ---------------------------------------------------------------------------------------------
  * C05: thread-count / schedule sweep on the implementation
  * ------------------------------------------------------------------------------------------ */
@@ -617,6 +721,22 @@ pub fn direct_c05(ctx: &mut Ctx) {
             let (mut spec, out) = random_net(&mut g, &cfg);
             spec.opt = Some(random_opt(&mut g));
             let n = sizes[i % sizes.len()];
+            let xs: Vec<Tensor> = (0..n).map(|_| input_for(&mut g, &spec.input)).collect();
+            let ts: Vec<Tensor> = (0..n).map(|_| target_for(&mut g, &out, &spec.obj)).collect();
+            jobs.push((spec, xs, ts));
+        }
+        // deterministic core: one source feeding several skip connections (the gradients coming back over them are
+        // added into the source's gradient; an order taken from a per-instance hash seed shows between fresh networks)
+        for (width, targets) in [(4usize, vec![2usize, 3, 4]), (3, vec![2, 3, 4, 5])] {
+            use crate::gen::arch::dense_spec;
+            let dcfg = ArchCfg { dropout: false, ..ArchCfg::small() };
+            let depth = targets.iter().max().unwrap() + 1;
+            let mut builds: Vec<Build> = (0..depth).map(|_| Build::Layer(dense_spec(&mut g, &dcfg, width, width, "tanh", true))).collect();
+            for t in targets.iter() { builds.push(Build::Connect(1, *t)); }
+            let mut spec = NetSpec { input: Shape::Single(width), builds, skipacc: "add".into(), loopacc: "mean".into(), opt: None, obj: "mse".into(), clamp: None };
+            spec.opt = Some(random_opt(&mut g));
+            let out = Sh::Flat(width);
+            let n = 63;
             let xs: Vec<Tensor> = (0..n).map(|_| input_for(&mut g, &spec.input)).collect();
             let ts: Vec<Tensor> = (0..n).map(|_| target_for(&mut g, &out, &spec.obj)).collect();
             jobs.push((spec, xs, ts));
